@@ -7,6 +7,7 @@ import (
 	"fmt"
 	"os"
 	"path/filepath"
+	"regexp"
 	"sort"
 	"strconv"
 	"strings"
@@ -120,7 +121,7 @@ type Evidence struct {
 }
 
 // classes whose violation shows as a panic or a hang of the real function (what the replay harness observes)
-var replayable = map[string]bool{"idx": true, "slice": true, "nil": true, "div": true, "make": true, "typeassert": true, "mapnil": true, "panic": true, "pre": true, "dec": true}
+var replayable = map[string]bool{"idx": true, "slice": true, "nil": true, "div": true, "make": true, "typeassert": true, "mapnil": true, "panic": true, "pre": true, "dec": true, "reset": true}
 
 var contractClasses = map[string]bool{"pre": false, "post": true, "inv-entry": true, "inv-pres": true, "frame": true, "assert": true, "cover": true, "typestate": true, "typestate-err": true, "init": true, "reset": true, "recover": true, "subtype": true, "lemma": true, "frame-in": true, "frame-glob": true, "cap": true, "alloc": true}
 
@@ -134,6 +135,8 @@ func checkCmd(args []string) {
 	verbose := fs.Bool("v", false, "")
 	dump := fs.String("dump", "", "")
 	noReplay := fs.Bool("no-replay", false, "")
+	noSkip := fs.Bool("noskip", false, "debug: solve the obligations the ledger lists as not claimed too")
+	only := fs.String("only", "", "debug: restrict the scope to functions whose key matches this regexp (never used by registered checks)")
 	fs.Parse(args)
 	t0 := time.Now()
 	seed := 0
@@ -153,13 +156,17 @@ func checkCmd(args []string) {
 	if *tier == "thorough" {
 		e.opts.TimeoutMs = 30000
 	}
+	if *update {
+		// the ledger claims only what discharges well under the timeout of a registered run (3x margin)
+		e.opts.TimeoutMs = 2000
+	}
 	if err := e.load(corePkgs); err != nil {
 		fmt.Fprintln(os.Stderr, "BROKEN: cannot load /repo:", err)
 		os.Exit(2)
 	}
 	loadS := time.Since(t0).Seconds()
 	ledger := loadLedger(*vdir, *prop)
-	if *tier == "quick" && !*update {
+	if *tier == "quick" && !*update && !*noSkip {
 		e.skipObl = map[string]bool{}
 		for k := range ledger.Unproved {
 			e.skipObl[k] = true
@@ -193,8 +200,47 @@ func checkCmd(args []string) {
 			}
 		}
 	}
+	if *only != "" {
+		re := regexp.MustCompile(*only)
+		var keep []*ssa.Function
+		for _, f := range fns {
+			if re.MatchString(e.fnKey(f)) {
+				keep = append(keep, f)
+			}
+		}
+		fns = keep
+	}
 	fmt.Fprintf(os.Stderr, "[%.1fs] loaded; %d functions in scope\n", time.Since(t0).Seconds(), len(fns))
 	results := e.verifyAll(fns, func(f *ssa.Function) *FnConfig { return sc.Cfg(e, f, isRoot[f]) })
+	// an obligation that discharged on the pinned tree and now times out gets a second, longer attempt before it is judged
+	if !*update {
+		retried := 0
+		var rwg sync.WaitGroup
+		for _, r := range results {
+			var again []*Obl
+			for _, o := range r.Obls {
+				if o.Result == "unknown" && ledger.proved[o.Name] && !o.final {
+					again = append(again, o)
+				}
+			}
+			if len(again) == 0 || r.script == "" {
+				continue
+			}
+			retried += len(again)
+			rwg.Add(1)
+			go func(r *FnResult, again []*Obl) {
+				defer rwg.Done()
+				for _, o := range again {
+					o.Result = ""
+				}
+				r.SolverMs += e.solve(r.script, again, 5*e.opts.TimeoutMs, r.ModelVars, true)
+			}(r, again)
+		}
+		rwg.Wait()
+		if retried > 0 {
+			fmt.Fprintf(os.Stderr, "[%.1fs] %d timed-out obligations retried with a 5x budget\n", time.Since(t0).Seconds(), retried)
+		}
+	}
 	fmt.Fprintf(os.Stderr, "[%.1fs] verification conditions solved\n", time.Since(t0).Seconds())
 	lemmaObls := e.verifyLemmas(*prop)
 	lemmaObls = append(lemmaObls, e.subtypeObligations(*prop)...)
@@ -248,7 +294,7 @@ func checkCmd(args []string) {
 			}
 			continue
 		}
-		if _, ok := ledger.Unproved[o.Name]; ok {
+		if _, ok := ledger.Unproved[o.Name]; ok && !*update {
 			unprovedNow = append(unprovedNow, o.Name)
 			continue
 		}
@@ -259,6 +305,7 @@ func checkCmd(args []string) {
 	caseOf := map[*Obl]*ReplayCase{}
 	if !*noReplay && !sc.NoReplay {
 		var cand []item
+		nLift := 0
 		for _, it := range needReplay {
 			if it.res == nil || len(it.o.Any) > 0 && it.o.Class != "dec" {
 				continue
@@ -266,16 +313,30 @@ func checkCmd(args []string) {
 			if !replayable[it.o.Class] {
 				continue
 			}
-			if !isRoot[it.res.Fn] {
-				// a helper may rely on what its callers guarantee: calling it directly proves nothing about the property
-				continue
-			}
 			if it.o.Result != "refuted" && it.o.Class != "dec" {
 				continue
 			}
+			if !isRoot[it.res.Fn] {
+				// a helper may rely on what its callers guarantee: calling it directly proves nothing about the
+				// property. Its counterexample is lifted through the call sites to an entry point instead.
+				if it.o.Class == "dec" || it.o.Class == "reset" || len(it.o.Any) > 0 {
+					continue
+				}
+				nLift++
+				if !*update && nLift > 48 {
+					continue
+				}
+			}
 			cand = append(cand, it)
 		}
+		callers := map[*ssa.Function][]liftCaller{}
+		for _, r := range results {
+			for _, cs := range r.CallSites {
+				callers[cs.callee] = append(callers[cs.callee], liftCaller{res: r, site: cs})
+			}
+		}
 		outs := make([]*ReplayCase, len(cand))
+		alts := make([]*ReplayCase, len(cand)) // second attempt of a lifted counterexample (bytes matched too)
 		var wg sync.WaitGroup
 		sem := make(chan bool, 16)
 		for i, it := range cand {
@@ -284,6 +345,29 @@ func checkCmd(args []string) {
 			go func(i int, it item) {
 				defer wg.Done()
 				defer func() { <-sem }()
+				if !isRoot[it.res.Fn] {
+					q := oblQueries(it.o)
+					if len(q) != 1 || len(q[0]) != 1 {
+						return
+					}
+					viol := []string{"(not " + q[0][0] + ")"}
+					for _, withBytes := range []bool{false, true} {
+						budget := 10
+						rootRes, model := e.liftToRoot(it.res, viol, nil, callers, isRoot, withBytes, 0, &budget)
+						if rootRes == nil {
+							continue
+						}
+						if rc, ok := e.buildReplay(rootRes, it.o, model); ok {
+							rc.Lifted = e.fnKey(rootRes.Fn)
+							if withBytes && outs[i] != nil {
+								alts[i] = rc
+							} else {
+								outs[i] = rc
+							}
+						}
+					}
+					return
+				}
 				model := e.modelPass(it.res, it.o)
 				if model == nil {
 					return
@@ -300,9 +384,22 @@ func checkCmd(args []string) {
 				cases = append(cases, rc)
 				caseOf[cand[i].o] = rc
 			}
+			if alts[i] != nil {
+				cases = append(cases, alts[i])
+			}
 		}
 		if len(cases) > 0 {
 			e.runReplays(cases)
+		}
+		if *verbose {
+			for _, rc := range cases {
+				fmt.Fprintf(os.Stderr, "REPLAY %s lifted=%q -> %s %s confirms=%v inputs=%v\n", rc.Obl.Name, rc.Lifted, rc.Outcome, rc.Detail, rc.Confirms, rc.Inputs)
+			}
+		}
+		for i, rc := range alts {
+			if rc != nil && rc.Confirms && (outs[i] == nil || !outs[i].Confirms) {
+				caseOf[cand[i].o] = rc
+			}
 		}
 	}
 	fmt.Fprintf(os.Stderr, "[%.1fs] %d replays done\n", time.Since(t0).Seconds(), len(cases))
@@ -320,6 +417,9 @@ func checkCmd(args []string) {
 			m["replay_outcome"] = rc.Outcome
 			m["replay_detail"] = rc.Detail
 			m["replay_package"] = rc.PkgDir
+			if rc.Lifted != "" {
+				m["lifted_to_entry_point"] = rc.Lifted
+			}
 		}
 		b, _ := json.MarshalIndent(m, "", " ")
 		os.WriteFile(p, b, 0644)
@@ -401,6 +501,7 @@ func checkCmd(args []string) {
 		b, _ := json.MarshalIndent(nl, "", " ")
 		os.WriteFile(filepath.Join(*vdir, "ledger", *prop+".json"), b, 0644)
 		fmt.Printf("ledger updated: proved=%d unproved=%d out-of-subset=%d\n", len(nl.Proved), len(nl.Unproved), len(nl.OutOfSubset))
+		os.Remove(filepath.Join(*vdir, "ledger", *prop+".candidates.txt"))
 		if len(newFindings) > 0 {
 			cand := filepath.Join(*vdir, "ledger", *prop+".candidates.txt")
 			os.WriteFile(cand, []byte(strings.Join(newFindings, "\n")+"\n"), 0644)
